@@ -312,7 +312,7 @@ def run_query(b, q, mem_gb):
             if to or pr is None or pr[0] is None:
                 r.status = 'timeout'; r.detail = 'witness query: no verdict'
                 continue
-            wit = [p for p in pr[0] if p.get('description', '').startswith('VF_WITNESS')]
+            wit = [p for p in pr[0] if p.get('description', '').startswith('VF_WITNESS') and p.get('description', '')[11:] not in q.get('optional_witness', ())]
             r.nprops = len(pr[0])
             if wit and all(p.get('status') == 'FAILURE' for p in wit):
                 r.status = 'ok'; r.detail = ''
@@ -338,7 +338,8 @@ def run_query(b, q, mem_gb):
             return r
         props = pr[0]
         r.nprops = len(props)
-        wit = [p for p in props if p.get('description', '').startswith('VF_WITNESS')]
+        # q['optional_witness']: names of vf_witness() points that need not be reachable in this query (shared handler code, C05)
+        wit = [p for p in props if p.get('description', '').startswith('VF_WITNESS') and p.get('description', '')[11:] not in q.get('optional_witness', ())]
         unw = [p for p in props if 'unwind' in p.get('property', '') and p.get('status') == 'FAILURE']
         bad = [p for p in props if p.get('status') == 'FAILURE' and not p.get('description', '').startswith('VF_WITNESS') and 'unwind' not in p.get('property', '')]
         if bad:
